@@ -166,9 +166,15 @@ def compu_method(s, internal_type, physical_type):
                                     compu_inverse_value=None)
     i2p = CompuInternalToPhys(compu_scales=scales, prog_code=None, compu_default_value=default)
     p2i = None
-    if "inv_scales" in s:
-        p2i = CompuPhysToInternal(compu_scales=[_scale(sc, pt, it) for sc in s["inv_scales"]],
-                                  prog_code=None, compu_default_value=None)
+    if "inv_scales" in s or "inv_default" in s:
+        # COMPU-PHYS-TO-INTERNAL, optionally with its own COMPU-DEFAULT-VALUE (the coded value that
+        # is sent for physical values outside all scales)
+        idef = None
+        if "inv_default" in s:
+            idef = CompuDefaultValue(v=str(s["inv_default"]), vt=None, data_type=it,
+                                     compu_inverse_value=None)
+        p2i = CompuPhysToInternal(compu_scales=[_scale(sc, pt, it) for sc in s.get("inv_scales", [])],
+                                  prog_code=None, compu_default_value=idef)
     cls = {
         "LINEAR": LinearCompuMethod, "SCALE-LINEAR": ScaleLinearCompuMethod,
         "TEXTTABLE": TexttableCompuMethod, "TAB-INTP": TabIntpCompuMethod,
@@ -217,9 +223,13 @@ def compu_method_xml(s):
         if "default" in s:
             out += f"<COMPU-DEFAULT-VALUE>{val(s['default'])}</COMPU-DEFAULT-VALUE>"
         out += "</COMPU-INTERNAL-TO-PHYS>"
-        if "inv_scales" in s:
-            out += "<COMPU-PHYS-TO-INTERNAL><COMPU-SCALES>" + "".join(scale(sc) for sc in s["inv_scales"]) + \
-                "</COMPU-SCALES></COMPU-PHYS-TO-INTERNAL>"
+        if "inv_scales" in s or "inv_default" in s:
+            out += "<COMPU-PHYS-TO-INTERNAL>"
+            if "inv_scales" in s:
+                out += "<COMPU-SCALES>" + "".join(scale(sc) for sc in s["inv_scales"]) + "</COMPU-SCALES>"
+            if "inv_default" in s:
+                out += f"<COMPU-DEFAULT-VALUE>{val(s['inv_default'])}</COMPU-DEFAULT-VALUE>"
+            out += "</COMPU-PHYS-TO-INTERNAL>"
     return out + "</COMPU-METHOD>"
 
 
